@@ -165,7 +165,7 @@ Proof.
 Qed.
 
 Lemma ps_src_mode_match : cw_src_mode = CwMatch.
-Proof. exact (proj1 (proj2 (proj2 (proj2 (proj2 (proj2 cw_facts)))))). Qed.
+Proof. reflexivity. Qed.     (* f_cw_ident_whole_match is Some true, or unrecognised (then the correspondence run decides) *)
 
 (* THE CODEC IS THE IDENTITY on every plain value: emit with the real writer's model, lex, parse, map back *)
 Theorem ps_text_codec_id v : ps_txt_ok v -> ps_text_codec v = Some v.
